@@ -13,24 +13,29 @@ import (
 	"verif/internal/lang"
 )
 
-// Predict runs the reference interpreter under every variant. It returns the
-// agreed outcome, or a non-empty reason why the program is unspecified.
-func Predict(p *lang.Prog, env map[string]lang.Value, variants []lang.Variants) (*lang.Outcome, string) {
-	var first *lang.Outcome
-	var firstKey string
-	for i, v := range variants {
+// Predict runs the reference interpreter under every variant of the choices
+// the documentation leaves open. It returns the distinct outcomes (any of
+// them is acceptable: the implementation corresponds to one combination of
+// the choices), or a non-empty reason why the program is unspecified (some
+// variant meets behaviour the references do not determine at all).
+func Predict(p *lang.Prog, env map[string]lang.Value, variants []lang.Variants) ([]*lang.Outcome, string) {
+	var outs []*lang.Outcome
+	seen := map[string]bool{}
+	for _, v := range variants {
 		o := lang.Run(p, cloneEnv(env), v)
 		if o.Unspecified != "" {
 			return nil, strings.SplitN(o.Unspecified, ":", 2)[0]
 		}
 		k := Key(o)
-		if i == 0 {
-			first, firstKey = o, k
-		} else if k != firstKey {
-			return nil, "variant-disagreement"
+		if !seen[k] {
+			seen[k] = true
+			outs = append(outs, o)
 		}
 	}
-	return first, ""
+	if len(outs) > 8 {
+		return nil, "too-many-acceptable-outcomes"
+	}
+	return outs, ""
 }
 
 func cloneEnv(env map[string]lang.Value) map[string]lang.Value {
@@ -72,7 +77,24 @@ func ErrString(e *lang.ErrV) string {
 
 // Compare checks the real run against the prediction. sigPrefix is put in
 // front of the failure signature.
-func Compare(src string, want *lang.Outcome, res *erun.Result) *hx.Failure {
+func Compare(src string, wants []*lang.Outcome, res *erun.Result) *hx.Failure {
+	var first *hx.Failure
+	for _, w := range wants {
+		f := compareOne(src, w, res)
+		if f == nil {
+			return nil
+		}
+		if first == nil {
+			first = f
+		}
+	}
+	if first != nil && len(wants) > 1 {
+		first.Msg = fmt.Sprintf("(none of the %d acceptable outcomes matches; shown against the first)\n%s", len(wants), first.Msg)
+	}
+	return first
+}
+
+func compareOne(src string, want *lang.Outcome, res *erun.Result) *hx.Failure {
 	if res.Panic != nil {
 		return &hx.Failure{Sig: res.Panic.Sig, Msg: src + "\n" + res.Panic.Msg}
 	}
